@@ -5,6 +5,7 @@ import sys
 from mc import core, hist, lib
 
 ENGINE = "E1-sweep"
+TICK_EVERY = 5      # every 5th case of every unit is repeated with numpy integer ticks (int64 / int32)
 RULE = ("all well-formed note sets (<=2 over the full lattice, <=3/<=4 over a reduced lattice, + 0-2 signature events) "
         "x 6 value lists x extension on/off, each compared with the independent fit model; distinct = distinct "
         "(values, extend, notes, events); non-trivial = some length changes or a note is removed")
